@@ -4,8 +4,23 @@
   `verifySeq` is the sequential reference of `Torrent.verify` on a torrent that passed
   `validate()`; `H` is the digest function (SHA-1 is a parameter, so "a changed byte is detected"
   carries the explicit hypothesis that `H` separates the two piece contents).
+
+  Theorems (helper lemmas live in Torf.Lemmas.Verify*):
+  * `C02_iff`                   no callback: `True` ⇔ all files good ∧ all digests match
+  * `C02_files_superset`        a content error names every file with a byte in the piece
+  * `C02_wrong_path_kind`       VerifyIsDirectoryError / VerifyNotDirectoryError
+  * `C02_callback`              with a callback: result = `SpecOk`, never raises; exactly one
+                                read/size error per bad file, one content error per mismatching
+                                data piece, nothing else; progress arguments
+  * `C02_nocb_first_exception`  no callback: raises the first exception the callback would get
+  * `C02_nocb_documented`       no callback: `True`, or a documented error (never `False`)
+  * `C02_bad_files_only`        good files unchanged ⇒ only the bad files are reported
+  * `C02_single_bad_file`       one missing / mis-sized file ⇒ exactly that error
+  * `C02_single_flip`           one changed byte ⇒ exactly the content error of its piece
+  Hypotheses: `0 < L`, a proper path kind, `pieces` of the right length, and (as in C10) no *bad*
+  zero-length entry (`NoBadEmpty`, finding D10a).
 -/
-import Torf.Lemmas.VerifyCollect
+import Torf.Lemmas.VerifyFlip
 namespace Torf.C02
 open Torf Torf.Missing Torf.Verify
 
@@ -146,5 +161,331 @@ example : (verifySeq (fun p : List Nat => p) 3 [2, 4, 0, 2]
 example : (verifySeq (fun p : List Nat => p) 3 [2, 4, 0, 2]
     [some [1, 2], none, some [], some [7, 8]] [[1, 2, 3], [4, 5, 6], [7, 8]]
     false false true).1 = .error (.read 1) := by decide
+
+/-! ### the wrong kind of path -/
+
+/-- **Wrong path kind.** A single-file torrent whose path is a directory is reported as
+    VerifyIsDirectoryError, a multi-file torrent whose path is not a directory as
+    VerifyNotDirectoryError: raised without a callback; with a callback it is handed to the
+    callback once (`pieces_done = 0`) and `verify` returns `False`. -/
+theorem C02_wrong_path_kind (H : List α → δ) (L : Nat) (sizes : List Nat)
+    (disk : List (Option (List α))) (stored : List δ) :
+    verifySeq H L sizes disk stored false true true = (.error .isDir, []) ∧
+    verifySeq H L sizes disk stored true true true =
+      (.ok false, [⟨0, 0, none, some .isDir⟩]) ∧
+    verifySeq H L sizes disk stored false false false = (.error .notDir, []) ∧
+    verifySeq H L sizes disk stored true false false =
+      (.ok false, [⟨0, 0, none, some .notDir⟩]) := by
+  refine ⟨?_, ?_, ?_, ?_⟩ <;> simp [verifySeq]
+
+/-! ### with a callback -/
+
+/-- **Callback run.** For a proper path, any layout, piece length and disk state (no bad
+    zero-length entry, as in C10) and a `pieces` field of the right length, `verify` with a
+    (passive) callback
+    * never raises and returns exactly `SpecOk`;
+    * hands the callback, in call order, exactly one ReadError / VerifyFileSizeError per bad file
+      (in file order) …
+    * … and exactly one VerifyContentError per piece that carries data and whose digest differs
+      from the stored one (in piece order), naming `corruptFiles` of that piece, in a call whose
+      `piece_index` is that piece;
+    * hands it no other kind of exception;
+    * reports at least one exception whenever it returns `False`;
+    * and every call has `pieces_done = piece_index + 1 ≥ 1`, `piece_index < nPieces`. -/
+theorem C02_callback (H : List α → δ) (L : Nat) (hL : 0 < L) (sizes : List Nat)
+    (disk : List (Option (List α))) (stored : List δ) (single pathIsDir : Bool)
+    (hp : ProperPath single pathIsDir) (hyp : NoBadEmpty sizes disk = true)
+    (hlen : stored.length = nPieces L sizes.sum) :
+    let r := verifySeq H L sizes disk stored true single pathIsDir
+    r.1 = .ok (SpecOk H L sizes disk stored) ∧
+    (excsOf r.2).filter isFileErr = (badFiles sizes disk).map excOf ∧
+    (excsOf r.2).filter isContentErr =
+      (mismatches H L sizes disk stored).map (fun p => VErr.content p (corruptFiles L sizes p)) ∧
+    (∀ e ∈ excsOf r.2, isFileErr e = true ∨ isContentErr e = true) ∧
+    (∀ c ∈ r.2, ∀ p fs, c.exc = some (.content p fs) → c.piece = p) ∧
+    (SpecOk H L sizes disk stored = false → ∃ c ∈ r.2, c.exc.isSome = true) ∧
+    (∀ c ∈ r.2, 1 ≤ c.done ∧ c.piece < nPieces L sizes.sum ∧ c.done = c.piece + 1) := by
+  obtain ⟨items, run⟩ := run_exists H L hL sizes disk stored hyp hlen
+  intro r
+  have hr : r = (.ok (SpecOk H L sizes disk stored),
+      items.zipIdx.flatMap (itemCalls H L sizes stored)) :=
+    verifySeq_cb H L sizes disk stored items hlen run single pathIsDir hp
+  rw [hr]
+  refine ⟨rfl, ?_, ?_, ?_, ?_, ?_, ?_⟩
+  · rw [excs_file, run.rep]
+  · rw [excs_content H L sizes stored items 0 run.clean, mismatches_eq, run.data]
+  · exact excs_kinds H L sizes stored _
+  · intro c hc p fs he
+    exact ((calls_progress H L sizes stored items c hc).2.2 p fs he).1.symm
+  · intro hs
+    have hne := run.exc hs
+    obtain ⟨e, he⟩ := List.exists_mem_of_ne_nil _ hne
+    obtain ⟨c, hc, hce⟩ := List.mem_filterMap.mp he
+    exact ⟨c, hc, by rw [hce]; rfl⟩
+  · intro c hc
+    obtain ⟨h1, h2, _⟩ := calls_progress H L sizes stored items c hc
+    rw [run.len] at h2
+    exact ⟨by omega, h2, h1⟩
+
+/-! ### without a callback -/
+
+/-- **First exception.** Without a callback `verify` raises the first exception the callback
+    would have been handed, and returns `True` if there is none. -/
+theorem C02_nocb_first_exception (H : List α → δ) (L : Nat) (hL : 0 < L) (sizes : List Nat)
+    (disk : List (Option (List α))) (stored : List δ) (single pathIsDir : Bool)
+    (hp : ProperPath single pathIsDir) (hyp : NoBadEmpty sizes disk = true)
+    (hlen : stored.length = nPieces L sizes.sum) :
+    verifySeq H L sizes disk stored false single pathIsDir =
+      (match (excsOf (verifySeq H L sizes disk stored true single pathIsDir).2).head? with
+        | some e => .error e
+        | none => .ok true, []) := by
+  obtain ⟨items, run⟩ := run_exists H L hL sizes disk stored hyp hlen
+  rw [verifySeq_cb H L sizes disk stored items hlen run single pathIsDir hp,
+    verifySeq_nocb H L sizes disk stored items hlen run single pathIsDir hp]
+  rfl
+
+/-- **Only documented outcomes.** Without a callback `verify` returns `True` or raises a
+    ReadError / VerifyFileSizeError naming a bad file or a VerifyContentError for a piece whose
+    digest differs — never `False`, never an undocumented exception, never a path-kind error. -/
+theorem C02_nocb_documented (H : List α → δ) (L : Nat) (hL : 0 < L) (sizes : List Nat)
+    (disk : List (Option (List α))) (stored : List δ) (single pathIsDir : Bool)
+    (hp : ProperPath single pathIsDir) (hyp : NoBadEmpty sizes disk = true)
+    (hlen : stored.length = nPieces L sizes.sum) :
+    let r := (verifySeq H L sizes disk stored false single pathIsDir).1
+    r = .ok true ∨
+    (∃ f, (f, ErrKind.read) ∈ badFiles sizes disk ∧ r = .error (.read f)) ∨
+    (∃ f, (f, ErrKind.size) ∈ badFiles sizes disk ∧ r = .error (.size f)) ∨
+    (∃ p ∈ mismatches H L sizes disk stored, r = .error (.content p (corruptFiles L sizes p))) := by
+  intro r
+  have h1 := C02_nocb_first_exception H L hL sizes disk stored single pathIsDir hp hyp hlen
+  obtain ⟨_, hfile, hcont, hkinds, _⟩ :=
+    C02_callback H L hL sizes disk stored single pathIsDir hp hyp hlen
+  have hr : r = (match (excsOf (verifySeq H L sizes disk stored true single pathIsDir).2).head? with
+        | some e => VResult.error e
+        | none => VResult.ok true) := by
+    show (verifySeq H L sizes disk stored false single pathIsDir).1 = _
+    rw [h1]
+  generalize excsOf (verifySeq H L sizes disk stored true single pathIsDir).2 = es
+    at hr hfile hcont hkinds
+  cases es with
+  | nil => left; exact hr
+  | cons e es =>
+    right
+    simp only [List.head?_cons] at hr
+    rcases hkinds e List.mem_cons_self with hk | hk
+    · have hmem : e ∈ (badFiles sizes disk).map excOf := by
+        rw [← hfile]; exact List.mem_filter.mpr ⟨List.mem_cons_self, hk⟩
+      obtain ⟨⟨f, k⟩, hb, rfl⟩ := List.mem_map.mp hmem
+      cases k with
+      | read => left; exact ⟨f, hb, hr⟩
+      | size => right; left; exact ⟨f, hb, hr⟩
+    · right; right
+      have hmem : e ∈ (mismatches H L sizes disk stored).map
+          (fun p => VErr.content p (corruptFiles L sizes p)) := by
+        rw [← hcont]; exact List.mem_filter.mpr ⟨List.mem_cons_self, hk⟩
+      obtain ⟨p, hp', rfl⟩ := List.mem_map.mp hmem
+      exact ⟨p, hp', hr⟩
+
+/-! non-vacuity of the hypotheses of `C02_callback` / `C02_nocb_documented` /
+    `C02_nocb_first_exception`, and a concrete callback trace: file 1 is missing (pieces 0 and 1
+    carry no data), piece 2 carries data but its digest differs from the stored one -/
+example : ProperPath false true ∧
+    NoBadEmpty [2, 4, 0, 2] [some [1, 2], none, some [], some [7, 9]] = true ∧
+    [[1, 2, 3], [4, 5, 6], [7, 8]].length = nPieces 3 [2, 4, 0, 2].sum :=
+  ⟨rfl, by decide, by decide⟩
+example : verifySeq (fun p : List Nat => p) 3 [2, 4, 0, 2]
+    [some [1, 2], none, some [], some [7, 9]] [[1, 2, 3], [4, 5, 6], [7, 8]]
+    true false true =
+    (.ok false, [⟨1, 0, none, some (.read 1)⟩, ⟨2, 1, none, none⟩,
+                 ⟨3, 2, some [7, 9], some (.content 2 [2, 3])⟩]) := by decide
+example : badFiles [2, 4, 0, 2] [some [1, 2], none, some [], some [7, 9]] = [(1, .read)] := by
+  decide
+
+/-! ### a torrent created from `orig`, verified against a damaged copy -/
+
+/-- **Only bad files.** The torrent was created from `orig`; on disk some files are missing or
+    have the wrong size (none of them a zero-length entry) and every other file has its original
+    content.  Then no content error is ever reported: with a callback `verify` returns whether
+    all files are good and hands the callback exactly one ReadError / VerifyFileSizeError per bad
+    file, in file order, and nothing else; without a callback it raises the error of the first
+    bad file (or returns `True`). -/
+theorem C02_bad_files_only (H : List α → δ) (L : Nat) (hL : 0 < L) (orig : List (List α))
+    (disk : List (Option (List α))) (single pathIsDir : Bool) (hp : ProperPath single pathIsDir)
+    (hyp : NoBadEmpty (orig.map List.length) disk = true)
+    (hsame : ∀ k (hk : k < orig.length), fileError (orig.map List.length) disk k = none →
+      disk.getD k none = some orig[k]) :
+    let sizes := orig.map List.length
+    let stored := (chunks L orig.flatten).map H
+    let cb := verifySeq H L sizes disk stored true single pathIsDir
+    cb.1 = .ok (AllGood sizes disk) ∧
+    excsOf cb.2 = (badFiles sizes disk).map excOf ∧
+    (verifySeq H L sizes disk stored false single pathIsDir).1 =
+      (match (badFiles sizes disk).head? with
+        | some e => .error (excOf e)
+        | none => .ok true) := by
+  intro sizes stored cb
+  have hlen : stored.length = nPieces L sizes.sum := length_stored H L hL orig
+  obtain ⟨hres, hfile, hcont, hkinds, _, hexc, _⟩ :=
+    C02_callback H L hL sizes disk stored single pathIsDir hp hyp hlen
+  have hnocb := C02_nocb_first_exception H L hL sizes disk stored single pathIsDir hp hyp hlen
+  rw [mismatches_eq_nil H L hL orig disk hsame, List.map_nil] at hcont
+  have hexcs : excsOf cb.2 = (badFiles sizes disk).map excOf :=
+    eq_of_filters _ _ _ _ hfile hcont hkinds
+  refine ⟨?_, hexcs, ?_⟩
+  · show cb.1 = _
+    rw [hres]
+    congr 1
+    by_cases hg : AllGood sizes disk = true
+    · rw [hg]
+      cases hs : SpecOk H L sizes disk stored with
+      | true => rfl
+      | false =>
+        obtain ⟨c, hc, hce⟩ := hexc hs
+        obtain ⟨e, he⟩ := Option.isSome_iff_exists.mp hce
+        have : e ∈ excsOf cb.2 := List.mem_filterMap.mpr ⟨c, hc, he⟩
+        rw [hexcs, badFiles_eq_nil_of_good sizes disk hg] at this
+        cases this
+    · unfold SpecOk; simp [hg]
+  · rw [hnocb]
+    show (match (excsOf cb.2).head? with
+        | some e => VResult.error e
+        | none => VResult.ok true) = _
+    rw [hexcs]
+    cases badFiles sizes disk with
+    | nil => rfl
+    | cons e es => rfl
+
+/-- **One bad file.** The torrent was created from `orig`; on disk every file but `j` is as in
+    `orig`, and file `j` (not a zero-length entry) is missing, resp. has a different length.
+    Then without a callback `verify` raises ReadError, resp. VerifyFileSizeError, naming file `j`;
+    with a callback it returns `False` and the only exception handed to the callback is that
+    one, exactly once. -/
+theorem C02_single_bad_file (H : List α → δ) (L : Nat) (hL : 0 < L) (orig : List (List α))
+    (disk : List (Option (List α))) (single pathIsDir : Bool) (hp : ProperPath single pathIsDir)
+    (j : Nat) (hj : j < orig.length) (hpos : 0 < orig[j].length)
+    (hrest : ∀ k (hk : k < orig.length), k ≠ j → disk[k]? = some (some orig[k])) :
+    let sizes := orig.map List.length
+    let stored := (chunks L orig.flatten).map H
+    let nocb := verifySeq H L sizes disk stored false single pathIsDir
+    let cb := verifySeq H L sizes disk stored true single pathIsDir
+    (disk.getD j none = none →
+      nocb.1 = .error (.read j) ∧ cb.1 = .ok false ∧ excsOf cb.2 = [.read j]) ∧
+    (∀ c, disk.getD j none = some c → c.length ≠ orig[j].length →
+      nocb.1 = .error (.size j) ∧ cb.1 = .ok false ∧ excsOf cb.2 = [.size j]) := by
+  intro sizes stored nocb cb
+  have key : ∀ e, fileError sizes disk j = some e →
+      nocb.1 = .error (excOf (j, e)) ∧ cb.1 = .ok false ∧ excsOf cb.2 = [excOf (j, e)] := by
+    intro e hbad
+    obtain ⟨hyp, hsame, hbf⟩ := single_bad_setup orig disk j hj hpos e hrest hbad
+    obtain ⟨h1, h2, h3⟩ := C02_bad_files_only H L hL orig disk single pathIsDir hp hyp hsame
+    refine ⟨?_, ?_, ?_⟩
+    · show (verifySeq H L sizes disk stored false single pathIsDir).1 = _
+      rw [h3, hbf]; rfl
+    · show (verifySeq H L sizes disk stored true single pathIsDir).1 = _
+      rw [h1]
+      congr 1
+      cases hg : AllGood (orig.map List.length) disk with
+      | false => rfl
+      | true =>
+        have := badFiles_eq_nil_of_good _ disk hg
+        rw [hbf] at this; cases this
+    · show excsOf (verifySeq H L sizes disk stored true single pathIsDir).2 = _
+      rw [h2, hbf]; rfl
+  constructor
+  · intro hnone
+    exact key .read (by unfold fileError; rw [hnone])
+  · intro c hc hne
+    exact key .size (by
+      unfold fileError; rw [hc]
+      simp only [sizes, sizeOf_map_length orig j hj, hne, if_false])
+
+/-! non-vacuity of `C02_single_bad_file` / `C02_bad_files_only`: file 1 missing, resp. too short -/
+def exOrig : List (List Nat) := [[1, 2], [3, 4, 5, 6], [], [7, 8]]
+
+example : (1 < exOrig.length) ∧ (∃ h : 1 < exOrig.length, 0 < exOrig[1].length) ∧
+    (∀ k (hk : k < exOrig.length), k ≠ 1 →
+      [some [1, 2], none, some [], some [7, 8]][k]? = some (some exOrig[k])) ∧
+    ([some [1, 2], none, some [], some [7, 8]] : List (Option (List Nat))).getD 1 none = none := by
+  decide
+example : (∀ k (hk : k < exOrig.length), k ≠ 1 →
+      [some [1, 2], some [3, 4], some [], some [7, 8]][k]? = some (some exOrig[k])) ∧
+    ([some [1, 2], some [3, 4], some [], some [7, 8]] : List (Option (List Nat))).getD 1 none
+      = some [3, 4] ∧ [3, 4].length ≠ exOrig[1].length := by
+  decide
+example : NoBadEmpty (exOrig.map List.length) [some [1, 2], none, some [], none] = true ∧
+    (∀ k (hk : k < exOrig.length),
+      fileError (exOrig.map List.length) [some [1, 2], none, some [], none] k = none →
+      ([some [1, 2], none, some [], none] : List (Option (List Nat))).getD k none
+        = some exOrig[k]) := by
+  decide
+
+/-- **One changed byte.** The torrent was created from `orig`; on disk every file has the
+    recorded size and the content is `orig` except for the byte at stream position `p`; `i` is
+    the piece that holds position `p`, and `H` separates the two contents of piece `i`
+    (`hsep` — for SHA-1 this is collision resistance).  Then without a callback `verify` raises
+    the VerifyContentError of piece `i`; with a callback it returns `False` and that error is the
+    only exception handed to the callback, exactly once, in a call with `piece_index = i`; and
+    the file that owns position `p` (it exists) is among the files the error names. -/
+theorem C02_single_flip (H : List α → δ) (L : Nat) (hL : 0 < L) (orig : List (List α))
+    (disk : List (Option (List α))) (single pathIsDir : Bool) (hp : ProperPath single pathIsDir)
+    (hgood : AllGood (orig.map List.length) disk = true)
+    (p : Nat) (b : α) (hlt : p < orig.flatten.length)
+    (hflip : diskStream (orig.map List.length) disk = orig.flatten.set p b)
+    (hsep : ((chunks L (diskStream (orig.map List.length) disk))[p / L]?).map H ≠
+      ((chunks L orig.flatten)[p / L]?).map H) :
+    let sizes := orig.map List.length
+    let stored := (chunks L orig.flatten).map H
+    let i := p / L
+    let err := VErr.content i (corruptFiles L sizes i)
+    let cb := verifySeq H L sizes disk stored true single pathIsDir
+    (verifySeq H L sizes disk stored false single pathIsDir).1 = .error err ∧
+    cb.1 = .ok false ∧
+    excsOf cb.2 = [err] ∧
+    (∀ c ∈ cb.2, c.exc = some err → c.piece = i) ∧
+    (∀ j, j < sizes.length → pos sizes j ≤ p → p < pos sizes j + Missing.sizeOf sizes j →
+      j ∈ corruptFiles L sizes i) ∧
+    (∃ j, j < sizes.length ∧ pos sizes j ≤ p ∧ p < pos sizes j + Missing.sizeOf sizes j) := by
+  intro sizes stored i err cb
+  have hlen : stored.length = nPieces L sizes.sum := length_stored H L hL orig
+  have hall : ∀ k < sizes.length, fileError sizes disk k = none := by
+    intro k hk
+    have := List.all_eq_true.mp hgood k (List.mem_range.mpr hk)
+    simpa using this
+  have hyp := noBadEmpty_of_good sizes disk hall
+  obtain ⟨hres, hfile, hcont, hkinds, hpiece, _, _⟩ :=
+    C02_callback H L hL sizes disk stored single pathIsDir hp hyp hlen
+  have hnocb := C02_nocb_first_exception H L hL sizes disk stored single pathIsDir hp hyp hlen
+  rw [badFiles_eq_nil_of_good sizes disk hgood, List.map_nil] at hfile
+  rw [mismatches_flip H L hL orig disk hgood p b hlt hflip hsep] at hcont
+  have hexcs : excsOf cb.2 = [err] :=
+    eq_of_filters _ _ _ _ hcont hfile (fun e he => (hkinds e he).symm)
+  refine ⟨?_, ?_, hexcs, ?_, ?_, ?_⟩
+  · rw [hnocb]
+    show (match (excsOf cb.2).head? with
+        | some e => VResult.error e
+        | none => VResult.ok true) = _
+    rw [hexcs]; rfl
+  · show cb.1 = _
+    rw [hres, specOk_flip H L orig disk p hsep]
+  · intro c hc he
+    exact hpiece c hc _ _ he
+  · intro j hj h1 h2
+    exact C02_files_superset L hL sizes j i hj (owner_overlaps L hL sizes j p h1 h2)
+  · exact exists_owner sizes p (by rw [sum_map_length]; exact hlt)
+
+/-! non-vacuity of `C02_single_flip` (byte 3 of the stream, in piece 1, owned by file 1) and the
+    resulting callback trace -/
+example : AllGood (exOrig.map List.length) [some [1, 2], some [3, 9, 5, 6], some [], some [7, 8]]
+      = true ∧ 3 < exOrig.flatten.length ∧
+    diskStream (exOrig.map List.length) [some [1, 2], some [3, 9, 5, 6], some [], some [7, 8]]
+      = exOrig.flatten.set 3 9 := by decide
+example : ((chunks 3 ([1, 2, 3, 9, 5, 6, 7, 8] : List Nat))[3 / 3]?).map (fun p => p) ≠
+    ((chunks 3 [1, 2, 3, 4, 5, 6, 7, 8])[3 / 3]?).map (fun p => p) := by
+  simp [chunks_cons_of_ne]
+example : verifySeq (fun p : List Nat => p) 3 (exOrig.map List.length)
+    [some [1, 2], some [3, 9, 5, 6], some [], some [7, 8]] [[1, 2, 3], [4, 5, 6], [7, 8]]
+    true false true =
+    (.ok false, [⟨1, 0, some [1, 2, 3], none⟩, ⟨2, 1, some [9, 5, 6], some (.content 1 [1])⟩,
+                 ⟨3, 2, some [7, 8], none⟩]) := by decide
 
 end Torf.C02
